@@ -95,7 +95,7 @@ def oracle(sp, w, m, types, ids, when):
         sp.fail('query-raises', '%s: a query raised %r at %s' % (when, ex, traceback.extract_tb(ex.__traceback__)[-1][:3]))
 
 
-def _oracle(sp, w, m, types, ids, when):
+def _oracle(sp, w, m, types, ids, when, check_alive=True):
     for T in types:
         got = w.get(T)
         exp = [(e, c) for e, comps in m.ents.items() for t, c in comps.items() if issubclass(t, T)]
@@ -126,11 +126,19 @@ def _oracle(sp, w, m, types, ids, when):
                 sp.check(w.get_component(e, T, SENTINEL) is SENTINEL, 'get_component-default',
                          '%s: get_component(%r, %s, default) does not return the given default' % (when, e, T.__name__))
         alive = bool(comps) and e not in m.dead
-        sp.check(w.entity_exists(e) is alive, 'entity_exists',
-                 '%s: entity_exists(%r) != %s' % (when, e, alive))
-    exp_alive = sorted(repr(e) for e in m.owners() if e not in m.dead)
-    sp.check(sorted(repr(e) for e in w.entities) == exp_alive, 'entities',
-             '%s: entities %r != %r' % (when, w.entities, exp_alive))
+        if check_alive:
+            sp.check(w.entity_exists(e) is alive, 'entity_exists',
+                     '%s: entity_exists(%r) != %s' % (when, e, alive))
+        else:       # which deletion marks survive a failed operation is free; an entity that owns nothing never exists
+            sp.check(bool(comps) or not w.entity_exists(e), 'entity_exists',
+                     '%s: entity_exists(%r) is True for an entity that owns nothing' % (when, e))
+    if check_alive:
+        exp_alive = sorted(repr(e) for e in m.owners() if e not in m.dead)
+        sp.check(sorted(repr(e) for e in w.entities) == exp_alive, 'entities',
+                 '%s: entities %r != %r' % (when, w.entities, exp_alive))
+    else:
+        sp.check(all(e in m.owners() for e in w.entities), 'entities',
+                 '%s: entities %r names an entity that owns nothing' % (when, w.entities))
 
 
 def pick_types(sp, types, label):
@@ -267,7 +275,178 @@ def h_world(sp, n_ids=2, n_types=3, build=True, steps=1, ops_ids=3, universe='ch
     sp.done()
 
 
+# ------------------------------------------------------------------------------------------ one failing callback
+class Boom(Exception):
+    pass
+
+
+ARM = {}
+
+
+def _maybe_raise(self, event):
+    if ARM.get('event') == event and not ARM.get('fired') and (
+            ARM.get('inst') is self or (ARM.get('inst') is None and ARM.get('armed-new') and getattr(self, 'new', False))):
+        ARM['fired'] = True
+        raise Boom('%s of %s fails once' % (event, type(self).__name__))
+
+
+@desper.event_handler('on_add', 'on_remove')
+class FA:
+    def on_add(self, entity, world):
+        _maybe_raise(self, 'on_add')
+
+    def on_remove(self, entity, world):
+        _maybe_raise(self, 'on_remove')
+
+
+class FB(FA):
+    pass
+
+
+class FC(FB):
+    pass
+
+
+class FN:
+    """not a handler"""
+
+
+FTYPES = [FA, FB, FN, FC]
+
+
+def h_fault(sp, n_types=3, n_ids=2):
+    """A state built from presence bits, then ONE operation during which one lifecycle callback raises once.
+    Afterwards the model is re-read from get_components (what each entity owns is the story) and every other
+    query must tell the same story; then the world must still be usable: everything can be deleted and a
+    process() completes."""
+    ARM.clear()
+    types = FTYPES[:n_types]
+    ids = IDS[:n_ids]
+    w = World()
+    m = Model()
+    for e in ids:
+        for T in types:
+            if sp.flag('has[%r,%s]' % (e, T.__name__)):
+                c = T()
+                w.add_component(e, c)
+                m.put(e, c)
+                sp.note('build add_component(%r, %s())' % (e, T.__name__))
+    for e in ids:
+        if m.ents.get(e) and sp.flag('dead[%r]' % (e,)):
+            w.delete_entity(e)
+            m.dead.add(e)
+            sp.note('build delete_entity(%r)' % (e,))
+    oracle(sp, w, m, types, ids, 'after build')
+    event = 'on_add' if sp.flag('fault-in-on_add') else 'on_remove'
+    ARM['event'] = event
+    if event == 'on_remove':
+        cands = [c for comps in m.ents.values() for c in comps.values() if isinstance(c, FA)]
+        if not cands:
+            sp.assume(False)
+        ARM['inst'] = sp.pick(cands, 'armed')
+        sp.note('armed: on_remove of the %s attached to %r raises once' % (
+            type(ARM['inst']).__name__, [e for e, comps in m.ents.items() if any(c is ARM['inst'] for c in comps.values())][0]))
+    else:
+        ARM['armed-new'] = True
+        sp.note('armed: on_add of the first new handler component raises once')
+
+    def new(T):
+        c = T()
+        if T is not FN and not ARM.get('one-new'):
+            c.new = True
+            ARM['one-new'] = True
+        return c
+
+    op = sp.choose(6, 'op')
+    try:
+        if op == 0:
+            e = sp.pick(ids, 'e')
+            T = sp.pick(types, 't')
+            sp.note('add_component(%r, %s())' % (e, T.__name__))
+            if T in m.ents.get(e, {}):
+                sp.cover('replace')
+            w.add_component(e, new(T))
+        elif op == 1:
+            e = sp.pick(ids, 'e')
+            ts = pick_types(sp, types, 'create')
+            sp.note('create_entity(%s, entity_id=%r)' % (', '.join(T.__name__ + '()' for T in ts), e))
+            w.create_entity(*[new(T) for T in ts], entity_id=e)
+        elif op == 2:
+            e = sp.pick(ids, 'e')
+            T = sp.pick(types, 't')
+            sp.note('remove_component(%r, %s)' % (e, T.__name__))
+            w.remove_component(e, T)
+        elif op == 3:
+            owners = sorted(m.owners(), key=repr)
+            if not owners:
+                sp.assume(False)
+            e = sp.pick(owners, 'e')
+            sp.note('delete_entity(%r, immediate=True)' % (e,))
+            if len(m.ents[e]) > 1:
+                sp.cover('multi-delete-immediate')
+            w.delete_entity(e, immediate=True)
+        elif op == 4:
+            for e in sorted(m.owners(), key=repr):
+                if e not in m.dead and sp.flag('also-delete[%r]' % (e,)):
+                    sp.note('delete_entity(%r)' % (e,))
+                    w.delete_entity(e)
+            sp.note('process()')
+            w.process()
+        elif op == 5:
+            sp.note('clear()')
+            w.clear()
+    except Boom:
+        sp.cover('fault-fired')
+        sp.cover('fault-in-' + event)
+        sp.note('  -> the armed callback raised')
+    except Exception as ex:         # noqa
+        import traceback
+        sp.fail('op-raises', 'the operation raised %r at %s' % (ex, traceback.extract_tb(ex.__traceback__)[-1][:3]))
+    if not ARM.get('fired'):
+        sp.assume(False)            # paths without a fault are shape I of harness world
+    # the story: what each entity owns
+    story = Model()
+    try:
+        for e in ids:
+            comps = w.get_components(e)
+            sp.check(len({type(c) for c in comps}) == len(comps), 'get_components',
+                     'after the failed operation get_components(%r) lists two components of one type' % (e,))
+            for c in comps:
+                story.put(e, c)
+    except Exception as ex:         # noqa
+        sp.fail('query-raises', 'after the failed operation get_components raised %r' % (ex,))
+    try:
+        _oracle(sp, w, story, types, ids, 'after the failed operation', check_alive=False)
+    except Exception as ex:         # noqa
+        import traceback
+        sp.fail('query-raises', 'after the failed operation a query raised %r at %s' % (
+            ex, traceback.extract_tb(ex.__traceback__)[-1][:3]))
+    # the world is still usable: delete everything (either way), process, nothing is left
+    deferred = bool(sp.flag('recover-deferred'))
+    try:
+        for e in sorted(story.owners(), key=repr):
+            if deferred:
+                if w.entity_exists(e):
+                    sp.note('recovery: delete_entity(%r)' % (e,))
+                    w.delete_entity(e)
+            else:
+                sp.note('recovery: delete_entity(%r, immediate=True)' % (e,))
+                w.delete_entity(e, immediate=True)
+        sp.note('recovery: process()')
+        w.process()
+        sp.cover('recovered-deferred' if deferred else 'recovered-immediate')
+    except Exception as ex:         # noqa
+        import traceback
+        sp.fail('recovery-raises', 'after the failed operation, deleting what is left and process() raised %r at %s' % (
+            ex, traceback.extract_tb(ex.__traceback__)[-1][:3]))
+    oracle(sp, w, Model(), types, ids, 'after recovery')
+    sp.done()
+
+
 HARNESSES = {
+    'fault': dict(fn=h_fault, nontrivial=['fault-fired'],
+                  required=['fault-fired', 'fault-in-on_add', 'fault-in-on_remove', 'replace', 'multi-delete-immediate',
+                            'recovered-deferred', 'recovered-immediate']),
     'world': dict(fn=h_world,
                   nontrivial=['replace', 'remove', 'delete-deferred', 'delete-immediate', 'process-deletes',
                               'create-auto'],
@@ -286,6 +465,7 @@ TIERS = {
          dict(required=['replace', 'remove', 'empty-universe'])),
         ('world', dict(n_ids=1, n_types=3, build=True, steps=1, ops_ids=2, universe='all-equal'),
          dict(required=['replace', 'remove', 'all-equal-universe'])),
+        ('fault', dict(n_types=3, n_ids=2)),
     ],
     'thorough': [
         ('world', dict(n_ids=3, n_types=3, build=True, steps=1)),
@@ -298,6 +478,7 @@ TIERS = {
         ('world', dict(n_ids=2, n_types=3, build=True, steps=1, ops_ids=2, universe='empty')),
         ('world', dict(n_ids=2, n_types=3, build=True, steps=1, ops_ids=2, universe='all-equal')),
         ('world', dict(n_ids=0, n_types=3, build=False, steps=3, ops_ids=2, universe='falsy')),
+        ('fault', dict(n_types=4, n_ids=2)),
     ],
 }
 BUDGET_S = {'quick': 120, 'thorough': 1500}
